@@ -198,6 +198,10 @@ func c17r2(p *Program, r *Report) {
 						}
 					}
 				}
+				// or the relation itself is known: fewer connections than the size
+				if v, known := f.KnownStr("len(" + root + ".conns) < " + root + ".size"); known && v {
+					okCount = true
+				}
 				r.Check(okCount, as, "(*hostConnPool).fill sets filling only when connections are missing", "fillCount > 0 known in the same section", "filling starts without a positive fill count computed under the lock: the pool can grow beyond its size")
 				// ... and that count was computed from the pool's fields inside this critical section (a count taken
 				// before the lock was re-acquired describes a pool another filler may have filled meanwhile)
@@ -575,18 +579,41 @@ func c17r3(p *Program, r *Report) {
 					return true
 				}
 				cond := ast.Unparen(ifs.Cond)
+				negated := false
+				strip := func() {
+					for {
+						if un, isU := cond.(*ast.UnaryExpr); isU && un.Op == token.NOT {
+							cond, negated = ast.Unparen(un.X), !negated
+							continue
+						}
+						break
+					}
+				}
+				strip()
 				if id, isId := cond.(*ast.Ident); isId {
-					// a local that captured pool.closed under the lock
+					// a local that captured pool.closed (or its negation) under the lock
 					if d := localDef(info, u, id); d != nil && singleAssigned(info, u.Decl.Body, info.Uses[id]) {
 						cond = ast.Unparen(d)
+						strip()
 					}
 				}
 				if !p.isField(info, cond, "hostConnPool", "closed") {
 					return true
 				}
+				// the branch taken when the pool is closed
+				var closedBranch ast.Node = ifs.Body
+				if negated {
+					closedBranch = nil
+					if ifs.Else != nil {
+						closedBranch = ifs.Else
+					}
+				}
+				if closedBranch == nil {
+					return true // `if !closed { add }`: the closing side is another if
+				}
 				found = true
 				closes := false
-				ast.Inspect(ifs.Body, func(m ast.Node) bool {
+				ast.Inspect(closedBranch, func(m ast.Node) bool {
 					if c, ok := m.(*ast.CallExpr); ok && isCallTo(info, c, "(*Conn).Close", "(*Conn).closeWithError") {
 						closes = true
 					}
